@@ -26,6 +26,7 @@ INVARIANT BytesParserKeepsEmpty
 INVARIANT HasGtCovered
 INVARIANT BlankEdgesAreLost
 INVARIANT HandleAtKIsRemainingLines
+INVARIANT SecondParseSame
 INVARIANT OrderFamilyUnsorted
 INVARIANT LayoutsSound
 INVARIANT CanonIsALayout
